@@ -52,13 +52,13 @@ def run(ctx):
         r, st = T.run_family(ctx, 'TSMMerge.ReadB_quick.cfg', tag='readB2', timeout=3600)
         cov['exhaustive_2files_3ts_le1tombstone_per_file'] = len(st)
         cases += decorate(st, 3, ctx.seed, 5, 1, base=5 * 10 ** 6)
-        st = picks_run(ctx, 'MCRead2', 2, 4, 6000)
+        st = picks_run(ctx, 'MCRead2', 2, 4, 4000)
         cov['sampled_2files_4ts_le2tombstones_per_file'] = len(st)
         cases += decorate(st, 4, ctx.seed, 5, 1, base=2 * 10 ** 6)
-        st = picks_run(ctx, 'MCRead3', 3, 5, 10000)
+        st = picks_run(ctx, 'MCRead3', 3, 5, 6000)
         cov['sampled_3files_5ts_le2tombstones_per_file'] = len(st)
         cases += decorate(st, 5, ctx.seed, 5, 1, base=3 * 10 ** 6)
-        st = picks_run(ctx, 'MCRead4', 4, 4, 4000)
+        st = picks_run(ctx, 'MCRead4', 4, 4, 3000)
         cov['sampled_4files_4ts_le2tombstones_per_file'] = len(st)
         cases += decorate(st, 4, ctx.seed, 5, 1, base=4 * 10 ** 6)
     binary = ctx.go_build('tsmmerge')
@@ -95,5 +95,5 @@ META = {
     'note': 'Exhaustive for 2 files x <= 2 blocks per file over 4 timestamps (tombstones: quick over 3 timestamps, thorough over 4); '
             'larger layouts are sampled by seed. One key per cursor; blocks are tiny. Trusted: TLC, the driver\'s drain loop and concretisation.',
     'technique': 'TLA+ spec (TSMMerge.tla, family read) + TLC input enumeration + replay of every state on real TSM files / KeyCursor',
-    'quick_s': 150, 'thorough_s': 1500,
+    'quick_s': 120, 'thorough_s': 1300,
 }
